@@ -680,16 +680,54 @@ def r_serde(F, V):
     if c is None:
         R.undec("size_hint::cautious not found")
     else:
-        mins = [(i, t) for i, t in c.calls() if (callee_path(t) or "").endswith("::min") or t["f"].get("method") == "min"]
-        ok = False
-        for i, t in mins:
-            for a in t["args"]:
-                if a["k"] == "const" and isinstance(a.get("val"), int) and 0 < a["val"] <= 4096:
-                    ok = True
+        LIM = 4096
+
+        def bounded(o, depth=0):
+            """every value this operand can take is <= LIM (min with a bounded operand, a small constant, a quotient of one)"""
+            if depth > 12:
+                return False
+            if o["k"] == "const":
+                return isinstance(o.get("val"), int) and 0 <= o["val"] <= LIM
+            if o["k"] not in ("copy", "move") or o["p"].get("proj"):
+                return False
+            ds = c.defs.get(o["p"]["l"], [])
+            if not ds:
+                return False
+            for d in ds:
+                if d[0] == "call":
+                    t = d[3]
+                    cp = callee_path(t) or ""
+                    if cp.endswith("::min") or t["f"].get("method") == "min":
+                        if not any(bounded(a, depth + 1) for a in t["args"]):
+                            return False
+                    elif cp in ("core::convert::identity",):
+                        if not bounded(t["args"][0], depth + 1):
+                            return False
+                    else:
+                        return False
+                else:
+                    rv = d[3]["rv"]
+                    if rv["k"] in ("use", "cast"):
+                        if not bounded(rv["op"], depth + 1):
+                            return False
+                    elif rv["k"] == "binop" and rv["op"] in ("Div", "Shr", "BitAnd", "Rem"):
+                        if not (bounded(rv["a"], depth + 1) or (rv["op"] in ("BitAnd", "Rem") and bounded(rv["b"], depth + 1))):
+                            return False
+                    else:
+                        return False
+            return True
+        rets = []
+        for i, t in c.calls():
+            if t["dest"]["l"] == 0 and not t["dest"].get("proj"):
+                rets.append({"k": "copy", "p": {"l": 0}})
+        for i, k, st in c.stmts():
+            if st["k"] == "assign" and st["p"]["l"] == 0 and not st["p"].get("proj"):
+                rets.append({"k": "copy", "p": {"l": 0}})
+        ok = bool(rets) and bounded({"k": "copy", "p": {"l": 0}})
         if ok:
-            R.inst("size_hint::cautious", "cautious = min(hint, C) with C <= 4096", "ok", True, where(c))
+            R.inst("size_hint::cautious", "every value cautious can return is bounded by a constant <= 4096", "ok", True, where(c))
         else:
-            R.violation("external_trait_impls::serde::size_hint::cautious|bound", c, "size_hint::cautious does not bound the hint by a constant <= 4096")
+            R.violation("external_trait_impls::serde::size_hint::cautious|bound", c, "size_hint::cautious does not bound its result by a constant <= 4096 on every path (some path returns the claimed length or a huge limit): a lying size hint forces a huge pre-allocation")
     # Serialize passes self to collect_map / collect_seq; no forget / ManuallyDrop in the module
     for p, b in F.bodies.items():
         if p.startswith("external_trait_impls::serde::") and p.endswith("::serialize"):
